@@ -15,6 +15,20 @@ CLAIMED = {
             "the real `From<&Program> for ControlFlowGraph` is executed symbolically and the block partition, labels, terminators, offsets and the "
             "dynamic flag are compared with a reference partition; z3 closes every path.",
             TRUST, "5/C28"),
+    "C09": ("All instruction sequences of length <= N (quick 3, thorough 4) over 11 instruction templates (every definition kind, PRAGMA EXTERN, body "
+            "instructions) with solver-chosen keys, values and qubits: the real from_instructions / to_instructions / into_instructions / PartialEq are "
+            "executed symbolically; the two listings, the rebuilt program and a reference container model must agree on every path.",
+            TRUST, "5/C09"),
+    "C11": ("All pairs of sequences A, B of length <= N (quick 2, thorough 3) over 9 templates: the real Add / AddAssign, FrameSet::merge, "
+            "Calibrations::extend, ExternPragmaMap::extend are executed symbolically; listing of A+B and A+=B against a reference merge, used-qubit union, identities.",
+            TRUST, "5/C11"),
+    "C08": ("All sequences of length <= N (quick 3, thorough 4) built twice and via concatenation, with the iteration order of every HashMap instance a "
+            "solver-chosen permutation (all n! for n <= 3): listings of independent builds must be equal and in first-insertion order.",
+            TRUST + "; HashMap order is modelled as arbitrary per instance", "5/C08"),
+    "C10": ("All start sequences (<= N) followed by all histories of <= H operations (quick 2/2, thorough 3/3) from add_instruction, +=, clone, "
+            "clone_without_body_instructions, rebuild, wrap_in_loop(0/1/2): after every step the cached used-qubit set is compared with the union of "
+            "get_qubits over the listing, and equal listings must compare equal. Three known findings (cache reset by clone_without_body_instructions).",
+            TRUST + "; expansion / simplify / placeholder operations are outside the history alphabet", "5/C10"),
 }
 
 NA_FIXED = {
